@@ -167,6 +167,15 @@ CLAIMED = {
          "(sibling cross-check), getters derive from the same flag/recogniser. Equivalence with a list model over all histories is NOT decided.",
     technique="CFG dominance with edge facts on the seven operations + AST affine check of the move indices + sibling cross-check enable/disable",
     ref="4/C12"),
+ "C11": dict(
+    text="Thin: N1 the renderer and the loader use the same marker attribute for names and the same one for descriptions (writer format "
+         "<marker><value>\\n, reader startswith + removal of that marker), description only when non-empty / default ''; N2 the loader sets enabled = "
+         "not recogniser(content) and the recogniser's shape is what disablefilter builds; N3 in the parser, hash comments are collected for "
+         "hash_comment tokens only, attached to top-level commands only, the collector emptied right after and in the reset; N4 loader appends in "
+         "result order and requires capabilities in string and list form, renderer writes require first then filters in order. Set equality after "
+         "a reload over all reachable states is NOT decided.",
+    technique="writer/reader agreement on AST templates + CFG guards on the comment plumbing",
+    ref="4/C11"),
 }
 NA = {}
 
